@@ -332,13 +332,13 @@ func (r *deserContext) decodeBinary() Item {
 		num := bigint.FromBytes(data)
 		return NewBigInteger(num)
 	case ArrayT, StructT:
-		size := int(r.ReadVarUint())
-		if size > r.limit {
+		size := r.ReadVarUint()
+		if size > uint64(r.limit) {
 			r.Err = errTooBigElements
 			return nil
 		}
 		arr := make([]Item, size)
-		for i := range size {
+		for i := range arr {
 			arr[i] = r.decodeBinary()
 		}
 
@@ -347,8 +347,8 @@ func (r *deserContext) decodeBinary() Item {
 		}
 		return NewStruct(arr)
 	case MapT:
-		size := int(r.ReadVarUint())
-		if size > r.limit/2 {
+		size := r.ReadVarUint()
+		if size > uint64(r.limit/2) {
 			r.Err = errTooBigElements
 			return nil
 		}
